@@ -35,11 +35,13 @@ class MemConsumer(AbstractMessageBusConsumerPlugin):
         pass
 
     def seekToBeginning(self):
+        self.mode = "scan"
         self.cur = self.world["bus"][0][0] if self.world["bus"] else -1
 
     def seek(self, offset):
         bus = self.world["bus"]
         lo = bus[0][0] if bus else self.world["next"]
+        self.mode = "process"
         if lo <= offset <= self.world["next"]:
             self.cur = offset
         else:
@@ -51,6 +53,11 @@ class MemConsumer(AbstractMessageBusConsumerPlugin):
                 continue
             if "limit" in self.world and off > self.world["limit"]:
                 return
+            if getattr(self, "mode", None) == "process" and self.world.get("budget") is not None:
+                # the consumer stops yielding (timeout / stop request) after 'budget' events
+                if self.world["budget"] <= 0:
+                    return
+                self.world["budget"] -= 1
             ev = Event.from_json(data)
             ev.offset = off
             ev.timestamp = ts
